@@ -3,9 +3,12 @@ import Logrange.Model.LqlAst
 # The LQL printers: every `makeString` / `String()` of pkg/lql/parser.go, on the typed AST
 
 Same branches, same order, same blanks (incl. the leading blank of `Delete.makeString`, the two blanks before a
-SELECT format, MAXDBSIZE not printed, BEFORE quoted twice, sizes printed through `int64(...)`).
-`rd : Int → Bytes` is Go's `time.Unix(0, v).String()` (opaque: calendar arithmetic and the local time zone are not
-modelled; the harness supplies it from the real function).
+SELECT format). The shapes of `Truncate.makeString` that were repaired (unsigned sizes, MAXDBSIZE printed, BEFORE
+quoted once) are read from regenerated facts, so the model follows the code if one of them is undone.
+`rd : Int → Bytes` is Go's rendering of the instant, `time.Unix(0, v).Format(layout)` with the layout the extractor
+reads from `DateTime.String()` (or `time.Time.String()` when no layout is used). It stays an **input**: calendar
+arithmetic, `time.Format` and the process' local time zone are not modelled; the harness computes it with the Go
+library from the regenerated layout.
 -/
 namespace Logrange.Lql
 open GoLib
@@ -101,11 +104,32 @@ def printDescribe (d : Describe) : Bytes :=
   ++ (match d.partition with | none => [] | some m => bs " PARTITION " ++ [123] ++ KV.line m ++ [125])
   ++ (match d.pipe with | none => [] | some p => bs " PIPE " ++ p)
 
-/-- `Truncate.makeString` (MAXDBSIZE is not printed; BEFORE goes through `String()` and then `strconv.Quote` again) -/
+/-- one size clause: `fmt.Sprintf(" KW %d", uint64(*p))` — or, when the regenerated fact says the code still converts
+through `int64(...)`, the signed text -/
+def sizeClause (unsigned : Bool) (kw : String) : Option Nat → Bytes
+  | none => []
+  | some n => [32] ++ bs kw ++ [32] ++ (if unsigned then decNat n else decInt (asInt64 n))
+
+/-- the BEFORE clause: `" BEFORE " ++ Before.String()` (quoted once) — or, per the regenerated fact, the old
+`addStringIfNotEmpty("BEFORE", &val)` that quotes the quoted text again -/
+def beforeClause (once : Bool) (rd : Int → Bytes) : Option Int → Bytes
+  | none => []
+  | some v => if once then bs " BEFORE " ++ printDate rd v else addStr "BEFORE" (some (printDate rd v))
+
+/-- what `Truncate.makeString` writes after the source, with the printer shapes as parameters -/
+def truncateTailWith (unsigned unsignedDb printsDb once : Bool) (rd : Int → Bytes) (t : Truncate) : Bytes :=
+  sizeClause unsigned "MINSIZE" t.minSize ++ sizeClause unsigned "MAXSIZE" t.maxSize
+  ++ beforeClause once rd t.before ++ (if printsDb then sizeClause unsignedDb "MAXDBSIZE" t.maxDbSize else [])
+
+/-- … with the shapes the extractor found in /repo **now** (`Generated.C12`) -/
+def truncateTail (rd : Int → Bytes) (t : Truncate) : Bytes :=
+  truncateTailWith Logrange.Generated.C12.truncateSizesUnsigned Logrange.Generated.C12.truncateDbSizeUnsigned
+    Logrange.Generated.C12.truncatePrintsMaxDbSize
+    Logrange.Generated.C12.beforeQuotedOnce rd t
+
+/-- `Truncate.makeString` -/
 def printTruncate (rd : Int → Bytes) (t : Truncate) : Bytes :=
-  bs "TRUNCATE" ++ (if t.dryRun then bs " DRYRUN" else []) ++ printOptSource t.source
-  ++ addInt "MINSIZE" (t.minSize.map asInt64) ++ addInt "MAXSIZE" (t.maxSize.map asInt64)
-  ++ (match t.before with | none => [] | some v => addStr "BEFORE" (some (printDate rd v)))
+  bs "TRUNCATE" ++ (if t.dryRun then bs " DRYRUN" else []) ++ printOptSource t.source ++ truncateTail rd t
 
 /-- `Show.makeString` with `Partitions.makeString` -/
 def printShow (s : ShowS) : Bytes :=
